@@ -374,6 +374,8 @@ class Interp:
         # a fresh copy without the `_parent` / `_module` links of the tree (a deepcopy would drag the whole module along);
         # the substituted argument nodes are the caller's own nodes and keep theirs
         fresh = ast.parse(unparse(body[0].value), mode="eval").body
+        for n_ in ast.walk(fresh):
+            n_._module = helper.module  # type: ignore[attr-defined]  # names inside resolve in the helper's module
         return Sub().visit(fresh)
 
     @staticmethod
